@@ -94,13 +94,23 @@ fn fnv(s: &str) -> u64 {
 }
 
 /// child mode: print one hash per corpus project (fresh process => fresh hash seeds)
+/// for runs on the SAME input: the canonical dump plus the diagnostics in the order they were emitted
+/// (generated code numbers the warnings in that order)
+pub fn dump_repeat(o: &Outcome) -> String {
+    let mut d = dump(o, false);
+    if let Outcome::Ok(p) = o {
+        d.push_str(&format!("emitted={:?}\n", p.warnings_in_order));
+    }
+    d
+}
+
 pub fn child(tier: Tier) -> i32 {
     let scratch = Scratch::new("c10child");
     let corpus = corpus(tier);
     let dir = scratch.worker(0);
     for p in &corpus {
         let o = run_project(p, &dir, default_opts());
-        println!("{:016x}", fnv(&dump(&o, false)));
+        println!("{:016x}", fnv(&dump_repeat(&o)));
     }
     0
 }
@@ -120,6 +130,7 @@ pub fn run(tier: Tier) -> i32 {
         let dir = scratch.worker(w);
         let base = run_project(p, &dir, default_opts());
         let bd = dump(&base, false);
+        let bd_repeat = dump_repeat(&base);
         outcomes.lock().unwrap().insert(fnv(&bd));
         *cross[i].lock().unwrap() = dump(&base, true);
         // sizes of the top-level maps present in this project
@@ -159,16 +170,16 @@ pub fn run(tier: Tier) -> i32 {
         }
         *n_variants.lock().unwrap() += variants.len() as u64;
         // repeated run in the same process
-        let again = dump(&run_project(p, &dir, default_opts()), false);
-        if again != bd {
+        let again = dump_repeat(&run_project(p, &dir, default_opts()));
+        if again != bd_repeat {
             rep.violation(format!("C10/rerun: two runs in one process differ :: {}", vmodel::report::truncate(&p.describe(), 300)), json!({}));
         }
-        *base_dumps[i].lock().unwrap() = bd;
+        *base_dumps[i].lock().unwrap() = bd_repeat;
     });
     // two fresh processes
     let exe = std::env::current_exe().expect("current exe");
     let mut child_outputs = vec![];
-    for _ in 0..2 {
+    for _ in 0..3 {
         let out = std::process::Command::new(&exe).args(["c10child", "--tier", tier.name()]).output().expect("spawn child");
         if !out.status.success() {
             vmodel::report::machinery_fail("c10 child process failed");
@@ -198,7 +209,7 @@ pub fn run(tier: Tier) -> i32 {
         rep.sample(json!({"project": vmodel::report::truncate(&corpus[j].describe(), 400)}));
     }
     let mut cov = serde_json::Map::new();
-    cov.insert("rule".into(), json!(format!("corpus: every depth-1 foreign-key chain x target kind in a 2-locale project, inheritance projects, repeated identical strings with and without namespaces, value forests with literals and plural forms, surplus/missing/unused-form diagnostics, cyclic/missing references; for every project every permutation of the top-level keys of its files when a file has <= {kmax} keys (else reversal and rotation), nested groups reversed, {{count,value}} field order flipped: the canonical dump (keys, signatures, effective locales, string tables, diagnostics, rendered text under boundary counts, or the error) must be identical; rerun in the same process and in two fresh processes; distinct_nontrivial = distinct canonical dumps")));
+    cov.insert("rule".into(), json!(format!("corpus: every depth-1 foreign-key chain x target kind in a 2-locale project, inheritance projects, repeated identical strings with and without namespaces, value forests with literals and plural forms, surplus/missing/unused-form diagnostics, cyclic/missing references; for every project every permutation of the top-level keys of its files when a file has <= {kmax} keys (else reversal and rotation), nested groups reversed, {{count,value}} field order flipped: the canonical dump (keys, signatures, effective locales, string tables, diagnostics, rendered text under boundary counts, or the error) must be identical; rerun in the same process and in three fresh processes (there also the order in which diagnostics are emitted, and which of several errors is reported, must repeat); distinct_nontrivial = distinct canonical dumps")));
     cov.insert("exhaustive".into(), json!(true));
     cov.insert("front_end".into(), json!(fmt.name()));
     rep.finish(cov, &["numeric literal type may differ between front-ends (compared by rendered text across formats)"])
